@@ -646,6 +646,97 @@ theorem runLoop_error_origin {I : Inst α} (hI : WF I) {source : Nat} {target : 
                   SearchTree.relaxAll_incident_treeInv hI v (hinv.pop v) hrel
                 exact ih _ h2.bump hrun
 
+/-- `runLoop_error_origin` with the limit arm located: the failing limit test is the one made at a
+loop head the run **reached** (`Reach`), so its two arguments are that head's `solution.len()` and
+`iterations` — which the bounds on reachable heads (`reach_length_le_vertices`, `general_bound`,
+`Reach.solSize_le`) bound -/
+theorem runLoop_error_origin_reach {I : Inst α} (hI : WF I) {source : Nat} {target : Option Nat}
+    {k : ErrKind} :
+    ∀ (sched : List Nat) (s : SState α), TreeInv I source s →
+      runLoop I source target sched s = .error k →
+      k = .noPath ∨ k = .scheduleExhausted ∨ k = .badSchedule ∨
+      (∃ pre hd, Reach I source target pre s hd ∧ I.term hd.solSize hd.iters = .error k) ∨
+      (∃ e st le, I.valid e st le = .error k) ∨
+      (∃ e le st, I.trav e le st = .error k) ∨ (∃ v st, I.h v st = .error k) := by
+  intro sched
+  induction sched with
+  | nil =>
+    intro s _ hrun
+    rw [runLoop_unfold] at hrun
+    split at hrun
+    · rename_i k' hk; cases hrun
+      exact Or.inr (Or.inr (Or.inr (Or.inl ⟨[], s, Reach.here s, hk⟩)))
+    · split at hrun
+      · split at hrun
+        · cases hrun; exact Or.inl rfl
+        · cases hrun
+      · cases hrun; exact Or.inr (Or.inl rfl)
+  | cons v rest ih =>
+    intro s hinv hrun
+    rw [runLoop_unfold] at hrun
+    split at hrun
+    · rename_i k' hk; cases hrun
+      exact Or.inr (Or.inr (Or.inr (Or.inl ⟨[], s, Reach.here s, hk⟩)))
+    · rename_i hterm
+      split at hrun
+      · split at hrun
+        · cases hrun; exact Or.inl rfl
+        · cases hrun
+      · rename_i hemp
+        have hemp' : s.queue.isEmpty = false := by simpa using hemp
+        simp only at hrun
+        split at hrun
+        · cases hrun; exact Or.inr (Or.inr (Or.inl rfl))
+        · rename_i hpop
+          have hpop' : popOk s.queue v = true := by simpa using hpop
+          split at hrun
+          · cases hrun
+          · rename_i htgt
+            have htv : target ≠ some v := by simpa using htgt
+            split at hrun
+            · rename_i hcur
+              exfalso
+              unfold curOf at hcur
+              rcases SearchTree.popped_has_entry hinv hpop' with hv | hv
+              · simp [hv] at hcur
+              · by_cases hvs : v = source
+                · simp [hvs] at hcur
+                · obtain ⟨b, hb⟩ := Option.isSome_iff_exists.1 hv
+                  simp [hvs, hb] at hcur
+            · rename_i lastEdge st hcur
+              split at hrun
+              · rename_i k' hk
+                cases hrun
+                obtain ⟨e, _, h1 | h1 | h1⟩ := relaxAll_error _ _ hk
+                · exact Or.inr (Or.inr (Or.inr (Or.inr (Or.inl ⟨_, _, _, h1⟩))))
+                · exact Or.inr (Or.inr (Or.inr (Or.inr (Or.inr (Or.inl ⟨_, _, _, h1⟩)))))
+                · exact Or.inr (Or.inr (Or.inr (Or.inr (Or.inr (Or.inr ⟨_, _, h1⟩)))))
+              · rename_i s2 hrel
+                have h2 : TreeInv I source s2 :=
+                  SearchTree.relaxAll_incident_treeInv hI v (hinv.pop v) hrel
+                have ht : SearchLimits.Turn I source target s v { s2 with iters := s2.iters + 1 } :=
+                  ⟨hterm, hemp', hpop', htv, lastEdge, st, s2, hcur, hrel, rfl⟩
+                rcases ih _ h2.bump hrun with h | h | h | ⟨pre, hd, hr, hk⟩ | h | h | h
+                · exact Or.inl h
+                · exact Or.inr (Or.inl h)
+                · exact Or.inr (Or.inr (Or.inl h))
+                · exact Or.inr (Or.inr (Or.inr (Or.inl ⟨v :: pre, hd, Reach.turn ht hr, hk⟩)))
+                · exact Or.inr (Or.inr (Or.inr (Or.inr (Or.inl h))))
+                · exact Or.inr (Or.inr (Or.inr (Or.inr (Or.inr (Or.inl h)))))
+                · exact Or.inr (Or.inr (Or.inr (Or.inr (Or.inr (Or.inr h)))))
+
+/-- `solution.len()` grows by at most the number of incident edges per turn -/
+theorem _root_.Compass.SearchLimits.Reach.solSize_le {I : Inst α} {D : Nat} (hD : ∀ v, (I.incident v).length ≤ D)
+    {source : Nat} {target : Option Nat} {pre : List Nat} {s hd : SState α}
+    (hr : Reach I source target pre s hd) : hd.solSize ≤ s.solSize + pre.length * D := by
+  induction hr with
+  | here s => simp
+  | @turn v rest s s1 hd ht _ ih =>
+    have h1 := ht.counters.2.2
+    have h2 := hD v
+    simp only [List.length_cons, Nat.add_mul, Nat.one_mul]
+    omega
+
 /-- the same for `run_vertex_oriented`: the backtrack never fails either -/
 theorem runVertexOriented_error_origin {I : Inst α} (hI : WF I) {source : Nat}
     {target : Option Nat} {sched : List Nat} {k : ErrKind}
@@ -678,6 +769,67 @@ theorem runVertexOriented_error_origin {I : Inst α} (hI : WF I) {source : Nat}
       | some t => exact Or.inr (Or.inr (Or.inr (Or.inr (Or.inr (Or.inr ⟨_, _, hk⟩)))))
     · rename_i f0 _
       exact runLoop_error_origin hI sched _ (SearchTree.initState_treeInv I source f0) hra
+
+/-- `runVertexOriented_error_origin` with the limit arm located at a loop head reached from the
+initial state -/
+theorem runVertexOriented_error_origin_reach {I : Inst α} (hI : WF I) {source : Nat}
+    {target : Option Nat} {sched : List Nat} {k : ErrKind}
+    (h : runVertexOriented I source target sched = .error k) :
+    k = .noPath ∨ k = .scheduleExhausted ∨ k = .badSchedule ∨
+    (∃ f0 pre hd, startF I source target = .ok f0 ∧
+      Reach I source target pre (initState source f0) hd ∧
+      I.term hd.solSize hd.iters = .error k) ∨
+    (∃ e st le, I.valid e st le = .error k) ∨
+    (∃ e le st, I.trav e le st = .error k) ∨ (∃ v st, I.h v st = .error k) := by
+  have hra : runAStar I source target sched = .error k := by
+    cases target with
+    | none =>
+      unfold runVertexOriented at h
+      split at h
+      · rename_i k' hk; cases h; exact hk
+      · cases h
+    | some t =>
+      by_cases hts : t = source
+      · subst hts
+        obtain ⟨res, hres, _⟩ := SearchTree.runVertexOriented_source I t sched
+        rw [hres] at h; cases h
+      · exact SearchTree.runVertexOriented_error hI source t sched _ hts h
+  rw [runAStar_unfold] at hra
+  split at hra
+  · cases hra
+  · split at hra
+    · rename_i k' hk
+      cases hra
+      unfold startF at hk
+      cases target with
+      | none => cases hk
+      | some t => exact Or.inr (Or.inr (Or.inr (Or.inr (Or.inr (Or.inr ⟨_, _, hk⟩)))))
+    · rename_i f0 hf0
+      rcases runLoop_error_origin_reach hI sched _ (SearchTree.initState_treeInv I source f0) hra
+        with h | h | h | ⟨pre, hd, hr, hk⟩ | h | h | h
+      · exact Or.inl h
+      · exact Or.inr (Or.inl h)
+      · exact Or.inr (Or.inr (Or.inl h))
+      · exact Or.inr (Or.inr (Or.inr (Or.inl ⟨f0, pre, hd, hf0, hr, hk⟩)))
+      · exact Or.inr (Or.inr (Or.inr (Or.inr (Or.inl h))))
+      · exact Or.inr (Or.inr (Or.inr (Or.inr (Or.inr (Or.inl h)))))
+      · exact Or.inr (Or.inr (Or.inr (Or.inr (Or.inr (Or.inr h)))))
+
+/-- a limit test made in a run from the initial state, when no run expands more than `N` vertices
+and no vertex has more than `D` incident edges, is made at `iterations ≤ N` and
+`solution.len() ≤ N · D` -/
+theorem reach_counters_le {I : Inst α} {N D : Nat} {source : Nat} {target : Option Nat}
+    (hN : ∀ f0, startF I source target = .ok f0 → ∀ pre h,
+      Reach I source target pre (initState source f0) h → pre.length ≤ N)
+    (hD : ∀ v, (I.incident v).length ≤ D) {f0 : α} (hf0 : startF I source target = .ok f0)
+    {pre : List Nat} {hd : SState α} (hr : Reach I source target pre (initState source f0) hd) :
+    hd.iters ≤ N ∧ hd.solSize ≤ N * D := by
+  have h1 := hN f0 hf0 pre hd hr
+  have h2 := hr.counters.1
+  have h3 := hr.solSize_le hD
+  have h4 : pre.length * D ≤ N * D := Nat.mul_le_mul_right D h1
+  simp only [initState] at h2 h3
+  omega
 
 /-! ### (c) General A\*: every run is finite, re-opening allowed
 
@@ -1576,19 +1728,61 @@ theorem config_astar_speed_terminates (c : Config α) (h : c.EdgeLocal)
 /-! ### What C05 needs: a deciding schedule exists
 
 On a well-formed configuration (`Config.WellFormedDistance`, `Config.GraphOK`: no call of a component
-fails) without a limit that fires, a final outcome is a result or "no path"; together with C05's
+fails) whose limits do not fire **within the bounds the termination proofs give** — at most `N`
+iterations and a tree of at most `N · D` entries, `N` the bound on the number of expansions (`n`
+under the Dijkstra discipline, `|walks| + 1` in general), `D` a bound on the number of incident
+edges of a vertex —, a final outcome is a result or "no path"; together with C05's
 `config_nopath_iff_unreachable` (any weight factor) the outcome is a result exactly when the
-destination is reachable. -/
+destination is reachable.  A configured iterations / solution-size / runtime limit that is large
+enough for the network is inside the premise; the premise in its earlier form
+(`∀ sz it, c.term.test sz it = .ok ()`) was met by the empty combined model only. -/
 
 theorem edgeLocal_of_wellFormed (c : Config α) {du : DistanceUnit} (W : c.WellFormedDistance du)
     {source : Nat} {hasT : Bool} (G : c.GraphOK source hasT) : c.EdgeLocal :=
   ⟨G.adj, W.noAccess, W.noTurn⟩
 
-/-- on a well-formed configuration whose limits never fire, a final outcome is a result or
-"no path" -/
+/-- "no run expands more than `N` vertices" (the hypothesis shape of `runAStar_final_of_bound`) -/
+def ExpansionBound (I : Inst α) (source : Nat) (target : Option Nat) (N : Nat) : Prop :=
+  ∀ f0, startF I source target = .ok f0 → ∀ pre h,
+    Reach I source target pre (initState source f0) h → pre.length ≤ N
+
+/-- Dijkstra (weight factor 0): at most `n` expansions over the vertices `< n` -/
+theorem config_dijkstra_bound (c : Config α) (hadj : c.AdjConsistent) (hwf : c.wf = some 0)
+    {source n : Nat} (hsrc : source < n) (hV : c.VerticesBelow n) (target : Option Nat) :
+    ExpansionBound c.inst source target n :=
+  heur_bound (c.inst_wf hadj) hsrc
+    (config_keyV_lt c hV (Nat.lt_of_le_of_lt (Nat.zero_le _) hsrc))
+    ((SearchDiscipline.config_zeroH c hwf).heur (c.inst_wf hadj) _)
+
+/-- a destination-less search (any weight factor): at most `n` expansions -/
+theorem config_tree_bound (c : Config α) (hadj : c.AdjConsistent)
+    {source n : Nat} (hsrc : source < n) (hV : c.VerticesBelow n) :
+    ExpansionBound c.inst source none n := by
+  have hI := c.inst_wf hadj
+  have hH : Heur c.inst (none : Option Nat).isSome (fun _ => 0) := by
+    refine ⟨fun v st x h => ?_, fun e le st ac tc st' _ h2 => ?_⟩
+    · simp only [Option.isSome_none, Bool.false_eq_true, if_false, Except.ok.injEq, zero_eq] at h
+      exact h.symm
+    · have := hI.cost_pos _ _ _ _ _ _ h2
+      simp only [add_zero]
+      exact le_of_lt this
+  exact heur_bound hI hsrc (config_keyV_lt c hV (Nat.lt_of_le_of_lt (Nat.zero_le _) hsrc)) hH
+
+/-- any weight factor, re-opening allowed: at most `|walks| + 1` expansions -/
+theorem config_general_bound (c : Config α) (hadj : c.AdjConsistent)
+    {source n : Nat} (hsrc : source < n) (hV : c.VerticesBelow n) (target : Option Nat) :
+    ExpansionBound c.inst source target ((walks c.inst source n).length + 1) :=
+  fun f0 _ _ _ hr => general_bound (c.inst_wf hadj) hsrc
+    (config_keyV_lt c hV (Nat.lt_of_le_of_lt (Nat.zero_le _) hsrc)) f0 hr
+
+/-- on a well-formed configuration whose limits do not fire within `N` iterations and `N · D` tree
+entries (`N` bounds the expansions of any run, `D` the incident edges of a vertex), a final outcome
+is a result or "no path" -/
 theorem config_final_result_or_nopath (c : Config α) {du : DistanceUnit}
     (W : c.WellFormedDistance du) {source : Nat} {target : Option Nat}
-    (G : c.GraphOK source target.isSome) (hlim : ∀ sz it, c.term.test sz it = .ok ())
+    (G : c.GraphOK source target.isSome) {N D : Nat} (hN : ExpansionBound c.inst source target N)
+    (hD : ∀ v, (c.inst.incident v).length ≤ D)
+    (hlim : ∀ sz it, it ≤ N → sz ≤ N * D → c.term.test sz it = .ok ())
     {sched : List Nat} (hfin : IsFinal (c.runVertex source target sched)) :
     (∃ r, c.runVertex source target sched = .ok r) ∨
       c.runVertex source target sched = .error .noPath := by
@@ -1603,22 +1797,26 @@ theorem config_final_result_or_nopath (c : Config α) {du : DistanceUnit}
       intro hm
       rcases hben with rfl | ⟨ks, rfl⟩ | rfl | rfl | rfl <;>
         rcases hm with hm | hm | hm | hm | hm <;> cases hm
-    rcases runVertexOriented_error_origin (c.inst_wf G.adj) h' with
-      rfl | rfl | rfl | ⟨sz, it, h⟩ | ⟨e, st, le, h⟩ | ⟨e, le, st, h⟩ | ⟨v, st, h⟩
+    rcases runVertexOriented_error_origin_reach (c.inst_wf G.adj) h' with
+      rfl | rfl | rfl | ⟨f0, pre, hd, hf0, hreach, h⟩ | ⟨e, st, le, h⟩ | ⟨e, le, st, h⟩ | ⟨v, st, h⟩
     · rfl
     · exact absurd rfl hfin.1
     · exact absurd rfl hfin.2
-    · have h2 : c.term.test sz it = .error k := h
-      rw [hlim] at h2; cases h2
+    · obtain ⟨a, b⟩ := reach_counters_le hN hD hf0 hreach
+      have h2 : c.term.test hd.solSize hd.iters = .error k := h
+      rw [hlim _ _ a b] at h2; cases h2
     · exact absurd (config_valid_error c h) hmodel
     · exact absurd (config_trav_error c h) hmodel
     · exact absurd (config_h_error c h) hmodel
 
-/-- **whatever schedule the implementation takes**: on a well-formed configuration without a firing
-limit, a run to a destination that ends, ends in a route or in "no path", and in a route exactly
-when the destination is reachable through permitted edges (any weight factor) -/
+/-- **whatever schedule the implementation takes**: on a well-formed configuration whose limits do
+not fire within the bounds (`N` iterations, `N · D` tree entries), a run to a destination that ends,
+ends in a route or in "no path", and in a route exactly when the destination is reachable through
+permitted edges (any weight factor) -/
 theorem config_final_decides (c : Config α) {du : DistanceUnit} (W : c.WellFormedDistance du)
-    {source t : Nat} (G : c.GraphOK source true) (hlim : ∀ sz it, c.term.test sz it = .ok ())
+    {source t : Nat} (G : c.GraphOK source true) {N D : Nat}
+    (hN : ExpansionBound c.inst source (some t) N) (hD : ∀ v, (c.inst.incident v).length ≤ D)
+    (hlim : ∀ sz it, it ≤ N → sz ≤ N * D → c.term.test sz it = .ok ())
     {sched : List Nat} (hfin : IsFinal (c.runVertex source (some t) sched)) :
     ((∃ r, c.runVertex source (some t) sched = .ok r) ∨
       c.runVertex source (some t) sched = .error .noPath) ∧
@@ -1626,17 +1824,19 @@ theorem config_final_decides (c : Config α) {du : DistanceUnit} (W : c.WellForm
       ∃ es, SearchOpt.Walk c.inst c.okOf source es t) ∧
     (c.runVertex source (some t) sched = .error .noPath ↔
       ¬ ∃ es, SearchOpt.Walk c.inst c.okOf source es t) := by
-  have hres := config_final_result_or_nopath c W (target := some t) G hlim hfin
+  have hres := config_final_result_or_nopath c W (target := some t) G hN hD hlim hfin
   have := config_nopath_iff_unreachable c (edgeLocal_of_wellFormed c W G) hres
   exact ⟨hres, this.2, this.1⟩
 
 /-- **a deciding schedule exists** (Dijkstra): on a well-formed configuration over the vertices
-`< n` without a firing limit there is a schedule of at most `n + 1` pops on which the search returns
-a route or "no path" — a route exactly when the destination is reachable —, and every accepted,
-unfinished schedule extends to such a one -/
+`< n` whose limits do not fire within `n` iterations and `n · D` tree entries (`D` bounds the number
+of incident edges of a vertex) there is a schedule of at most `n + 1` pops on which the search
+returns a route or "no path" — a route exactly when the destination is reachable —, and every
+accepted, unfinished schedule extends to such a one -/
 theorem config_dijkstra_decides (c : Config α) {du : DistanceUnit} (W : c.WellFormedDistance du)
-    {source t : Nat} (G : c.GraphOK source true) (hwf : c.wf = some 0)
-    (hlim : ∀ sz it, c.term.test sz it = .ok ()) {n : Nat} (hsrc : source < n)
+    {source t : Nat} (G : c.GraphOK source true) (hwf : c.wf = some 0) {n D : Nat}
+    (hD : ∀ v, (c.inst.incident v).length ≤ D)
+    (hlim : ∀ sz it, it ≤ n → sz ≤ n * D → c.term.test sz it = .ok ()) (hsrc : source < n)
     (hV : c.VerticesBelow n) :
     (∃ sched, sched.length ≤ n + 1 ∧
       ((∃ r, c.runVertex source (some t) sched = .ok r) ∨
@@ -1649,21 +1849,26 @@ theorem config_dijkstra_decides (c : Config α) {du : DistanceUnit} (W : c.WellF
           c.runVertex source (some t) (pre ++ ext) = .error .noPath) ∧
         ((∃ r, c.runVertex source (some t) (pre ++ ext) = .ok r) ↔
           ∃ es, SearchOpt.Walk c.inst c.okOf source es t) := by
+  have hN := config_dijkstra_bound c G.adj hwf hsrc hV (some t)
   obtain ⟨⟨sched, h1, h2⟩, h3, _⟩ := config_dijkstra_terminates c G.adj hwf hsrc hV (some t)
   refine ⟨⟨sched, h1, ?_⟩, ?_⟩
-  · obtain ⟨a, b, _⟩ := config_final_decides c W G hlim h2.isFinal
+  · obtain ⟨a, b, _⟩ := config_final_decides c W G hN hD hlim h2.isFinal
     exact ⟨a, b⟩
   · intro pre hpre
     obtain ⟨h4, ext, h5, h6⟩ := h3 pre hpre
-    obtain ⟨a, b, _⟩ := config_final_decides c W G hlim h6.isFinal
+    obtain ⟨a, b, _⟩ := config_final_decides c W G hN hD hlim h6.isFinal
     exact ⟨h4, ext, h5, a, b⟩
 
 /-- **a deciding schedule exists, any weight factor** (general A\*, re-opening allowed): as
-`config_dijkstra_decides` with the bound `|walks| + 2` of `config_terminates_general` -/
+`config_dijkstra_decides` with the bound `N = |walks| + 1` of `config_terminates_general` on the
+expansions (limits silent within `N` iterations and `N · D` tree entries; schedules of at most
+`N + 1` pops) -/
 theorem config_search_decides (c : Config α) {du : DistanceUnit} (W : c.WellFormedDistance du)
-    {source t : Nat} (G : c.GraphOK source true)
-    (hlim : ∀ sz it, c.term.test sz it = .ok ()) {n : Nat} (hsrc : source < n)
-    (hV : c.VerticesBelow n) :
+    {source t : Nat} (G : c.GraphOK source true) {n D : Nat}
+    (hD : ∀ v, (c.inst.incident v).length ≤ D)
+    (hlim : ∀ sz it, it ≤ (walks c.inst source n).length + 1 →
+      sz ≤ ((walks c.inst source n).length + 1) * D → c.term.test sz it = .ok ())
+    (hsrc : source < n) (hV : c.VerticesBelow n) :
     (∃ sched, sched.length ≤ (walks c.inst source n).length + 2 ∧
       ((∃ r, c.runVertex source (some t) sched = .ok r) ∨
         c.runVertex source (some t) sched = .error .noPath) ∧
@@ -1676,13 +1881,14 @@ theorem config_search_decides (c : Config α) {du : DistanceUnit} (W : c.WellFor
           c.runVertex source (some t) (pre ++ ext) = .error .noPath) ∧
         ((∃ r, c.runVertex source (some t) (pre ++ ext) = .ok r) ↔
           ∃ es, SearchOpt.Walk c.inst c.okOf source es t) := by
+  have hN := config_general_bound c G.adj hsrc hV (some t)
   obtain ⟨⟨sched, h1, h2⟩, h3, _⟩ := config_terminates_general c G.adj hsrc hV (some t)
   refine ⟨⟨sched, h1, ?_⟩, ?_⟩
-  · obtain ⟨a, b, _⟩ := config_final_decides c W G hlim h2.isFinal
+  · obtain ⟨a, b, _⟩ := config_final_decides c W G hN hD hlim h2.isFinal
     exact ⟨a, b⟩
   · intro pre hpre
     obtain ⟨h4, ext, h5, h6⟩ := h3 pre hpre
-    obtain ⟨a, b, _⟩ := config_final_decides c W G hlim h6.isFinal
+    obtain ⟨a, b, _⟩ := config_final_decides c W G hN hD hlim h6.isFinal
     exact ⟨h4, ext, h5, a, b⟩
 
 /-- **restrictions that depend only on the edge, any access model** (`Config.RestrictionLocal`:
@@ -1740,12 +1946,15 @@ theorem runLoop_none_ne_noPath {I : Inst α} (hyg : SearchOpt.NoSpuriousNoPath I
                 exact SearchOpt.relaxAll_not_noPath hyg _ _ _ _ _ hk
               · exact ih _ hrun
 
-/-- **destination-less search**: on a well-formed configuration over the vertices `< n` without a
-firing limit (any weight factor) there is a schedule of at most `n + 1` pops on which the search
-returns its tree, and every accepted, unfinished schedule extends to such a one -/
+/-- **destination-less search**: on a well-formed configuration over the vertices `< n` whose limits
+do not fire within `n` iterations and `n · D` tree entries (any weight factor) there is a schedule
+of at most `n + 1` pops on which the search returns its tree, and every accepted, unfinished
+schedule extends to such a one -/
 theorem config_tree_search_returns (c : Config α) {du : DistanceUnit} (W : c.WellFormedDistance du)
-    {source : Nat} (G : c.GraphOK source false) (hlim : ∀ sz it, c.term.test sz it = .ok ())
-    {n : Nat} (hsrc : source < n) (hV : c.VerticesBelow n) :
+    {source : Nat} (G : c.GraphOK source false) {n D : Nat}
+    (hD : ∀ v, (c.inst.incident v).length ≤ D)
+    (hlim : ∀ sz it, it ≤ n → sz ≤ n * D → c.term.test sz it = .ok ())
+    (hsrc : source < n) (hV : c.VerticesBelow n) :
     (∃ sched r, sched.length ≤ n + 1 ∧ c.runVertex source none sched = .ok r) ∧
     ∀ pre, c.runVertex source none pre = .error .scheduleExhausted →
       pre.length ≤ n ∧ ∃ ext r, (pre ++ ext).length ≤ n + 1 ∧
@@ -1761,14 +1970,15 @@ theorem config_tree_search_returns (c : Config α) {du : DistanceUnit} (W : c.We
       simp only [reduceCtorEq, if_false, startF] at hk
       exact runLoop_none_ne_noPath c.noSpuriousNoPath _ _ hk
     · cases h'
+  have hN := config_tree_bound c G.adj hsrc hV
   obtain ⟨⟨sched, h1, h2⟩, h3, _⟩ := config_tree_search_terminates c G.adj hsrc hV
   refine ⟨?_, ?_⟩
-  · rcases config_final_result_or_nopath c W (target := none) G hlim h2.isFinal with ⟨r, hr⟩ | hr
+  · rcases config_final_result_or_nopath c W (target := none) G hN hD hlim h2.isFinal with ⟨r, hr⟩ | hr
     · exact ⟨sched, r, h1, hr⟩
     · exact absurd hr (hnp _)
   · intro pre hpre
     obtain ⟨h4, ext, h5, h6⟩ := h3 pre hpre
-    rcases config_final_result_or_nopath c W (target := none) G hlim h6.isFinal with ⟨r, hr⟩ | hr
+    rcases config_final_result_or_nopath c W (target := none) G hN hD hlim h6.isFinal with ⟨r, hr⟩ | hr
     · exact ⟨h4, ext, r, h5, hr⟩
     · exact absurd hr (hnp _)
 
